@@ -24,10 +24,12 @@ type c09Mon struct {
 	batch    int
 	survived map[uint64]int // consecutive sweeps a clearly unsafe, eligible vault survived
 	maxLen   map[uint64]int
+	prefix   string // label prefix ("C09"; C15 reuses the hand-over part as "C15/unit-half-applied")
+	handOnly bool   // only the hand-over / half-applied implications
 }
 
 func newC09Mon(u *cdpU, rec *ev.Rec, batch int) *c09Mon {
-	return &c09Mon{u: u, rec: rec, st: newSettleTracker(), batch: batch, survived: map[uint64]int{}, maxLen: map[uint64]int{}}
+	return &c09Mon{u: u, rec: rec, st: newSettleTracker(), batch: batch, survived: map[uint64]int{}, maxLen: map[uint64]int{}, prefix: "C09"}
 }
 
 // vaultRatio returns collateral value X and total debt value Y (principal + interest + closing fee) at the snapshot's prices.
@@ -73,7 +75,7 @@ func (m *c09Mon) Observe(pre, post *cdpSnap, e *cdpEvent) {
 		Y := exactValue(debt, pout, p.Out.Dec)
 		m.rec.Eval(1)
 		m.rec.Count(fmt.Sprintf("seizures_gen%d_by_%s", sz.Gen, how), 1)
-		if above, ok := crAbove(X, Y, decRat(p.P.MinCr)); ok && above {
+		if above, ok := crAbove(X, Y, decRat(p.P.MinCr)); ok && above && !m.handOnly {
 			m.rec.Violate(fmt.Sprintf("C09/safety/seized-while-safe/gen%d/%s", sz.Gen, how), "a vault at or above the liquidation ratio was seized",
 				map[string]interface{}{"event": e.String(), "vault": sz.VaultID, "collateral": coll.String(), "total_debt": debt.String(), "liq_ratio": p.P.MinCr.String(), "price_in": pre.Price[p.In.ID], "price_out": pout})
 		}
@@ -94,7 +96,7 @@ func (m *c09Mon) Observe(pre, post *cdpSnap, e *cdpEvent) {
 			}
 		}
 		if n != 1 {
-			m.rec.Violate(fmt.Sprintf("C09/hand-over/auctions-for-seizure-not-one/gen%d/%s", sz.Gen, how), fmt.Sprintf("%d auctions opened for the seized vault", n), map[string]interface{}{"event": e.String(), "vault": sz.VaultID})
+			m.rec.Violate(fmt.Sprintf(m.prefix+"/hand-over/auctions-for-seizure-not-one/gen%d/%s", sz.Gen, how), fmt.Sprintf("%d auctions opened for the seized vault", n), map[string]interface{}{"event": e.String(), "vault": sz.VaultID})
 		}
 	}
 	// hand-over of coins: exact when the event did nothing but seize (a liquidate message, or a block without settlements / fills)
@@ -129,7 +131,7 @@ func (m *c09Mon) Observe(pre, post *cdpSnap, e *cdpEvent) {
 					m.rec.Eval(1)
 					m.rec.Count("handover_coin_checks", 1)
 					if got.Cmp(w) != 0 || left.Cmp(w) != 0 {
-						m.rec.Violate(fmt.Sprintf("C09/hand-over/collateral-moved-not-recorded-collateral/gen%d/%s", gen, how), fmt.Sprintf("recorded collateral of seizures %s, auction custody received %s, vault custody released %s (%s)", w, got, left, denom),
+						m.rec.Violate(fmt.Sprintf(m.prefix+"/hand-over/collateral-moved-not-recorded-collateral/gen%d/%s", gen, how), fmt.Sprintf("recorded collateral of seizures %s, auction custody received %s, vault custody released %s (%s)", w, got, left, denom),
 							map[string]interface{}{"event": e.String()})
 					}
 				}
@@ -144,11 +146,14 @@ func (m *c09Mon) Observe(pre, post *cdpSnap, e *cdpEvent) {
 		}
 		for id := range pre.Vaults {
 			if _, still := post.Vaults[id]; !still && !seizedIDs[id] {
-				m.rec.Violate("C09/hand-over/vault-vanished-in-block-without-locked-vault", "a vault disappeared during block processing but no locked vault refers to it", map[string]interface{}{"event": e.String(), "vault": id})
+				m.rec.Violate(m.prefix+"/hand-over/vault-vanished-in-block-without-locked-vault", "a vault disappeared during block processing but no locked vault refers to it", map[string]interface{}{"event": e.String(), "vault": id})
 			}
 		}
 		// ---- bounded liveness for generation-2-enabled apps
 		for id, v := range pre.Vaults {
+			if m.handOnly {
+				break
+			}
 			if v.AppId != appBeacon {
 				continue
 			}
